@@ -91,18 +91,34 @@ func tableStr(t [][]string) string {
 
 var c09Tok = map[int]*csv.CsvTokenizer{}
 
-func c09Tokenizer(ci int, k c09Cfg, fresh bool) *csv.CsvTokenizer {
+func c09Tokenizer(ci int, order int, k c09Cfg, fresh bool) *csv.CsvTokenizer {
 	if !fresh {
-		if t, ok := c09Tok[ci]; ok {
+		if t, ok := c09Tok[ci*4+order]; ok {
 			return t
 		}
 	}
 	t := csv.NewCsvTokenizer()
-	t.SetFieldSeparators(k.seps)
-	t.SetQuoteSymbols(k.quotes)
+	// the setters are called in one of four orders (a configuration is a history of setter calls)
+	switch order {
+	case 0:
+		t.SetFieldSeparators(k.seps)
+		t.SetQuoteSymbols(k.quotes)
+	case 1:
+		t.SetQuoteSymbols(k.quotes)
+		t.SetFieldSeparators(k.seps)
+	case 2:
+		t.SetQuoteSymbols(k.quotes)
+		t.SetFieldSeparators(k.seps)
+		t.SetFieldSeparators(k.seps) // the same set applied again
+	case 3:
+		t.SetFieldSeparators(k.seps)
+		t.SetQuoteSymbols(k.quotes)
+		t.SetQuoteSymbols(k.quotes)
+		t.SetFieldSeparators(append([]rune{}, k.seps...))
+	}
 	t.SetDecodeStrings(true)
 	if !fresh {
-		c09Tok[ci] = t
+		c09Tok[ci*4+order] = t
 	}
 	return t
 }
@@ -114,11 +130,11 @@ func c09Run(c *fw.Ctx, table [][]string, ci int) {
 		var t *csv.CsvTokenizer
 		var toks []*tokenizers.Token
 		pv := fw.Try(func() {
-			t = c09Tokenizer(ci, k, fresh)
+			t = c09Tokenizer(ci, (ci+len(text))%4, k, fresh)
 			toks = t.TokenizeBuffer(text)
 		})
 		if pv != nil {
-			delete(c09Tok, ci)
+			delete(c09Tok, ci*4+(ci+len(text))%4)
 			return "panic: " + panicShort(pv), nil, 0
 		}
 		rows := [][]string{{""}}
@@ -216,7 +232,7 @@ func init() {
 	fw.Register(&fw.Check{
 		ID:    "C09",
 		Level: "model_checking",
-		Rule: "tables of 1..2 rows x 1..2 columns (thorough: also 3x2 over a reduced pool) with fields from a 22-string pool (empty, blanks, every separator and quote symbol, doubled quotes, LF, CR, CRLF, embedded line break, Latin-1, non-Latin, U+FFFE) x 144+ configurations (4 separator sets incl. TAB and U+2192, 3 quote sets incl. U+201D, 4 line endings, quote-when-needed / always-quote, every choice of the configured separator and quote used by the writer, fixed for the document or rotating field by field); " +
+		Rule: "tables of 1..2 rows x 1..2 columns (thorough: also 3x2 over a reduced pool) with fields from a 22-string pool (empty, blanks, every separator and quote symbol, doubled quotes, LF, CR, CRLF, embedded line break, Latin-1, non-Latin, U+FFFE) x 144+ configurations (4 separator sets incl. TAB and U+2192, 3 quote sets incl. U+201D, 4 line endings, quote-when-needed / always-quote, the configuration setters called in four different orders (incl. the same set applied twice), every choice of the configured separator and quote used by the writer, fixed for the document or rotating field by field); " +
 			"oracle: reference writer, then TokenizeBuffer with string decoding, regrouped (Eol = row break, separator symbol = field break, Word/Quoted values concatenate) equals the table, and each line ending is exactly one Eol token; plus tables of up to 257 (thorough 1000) rows or columns whose fields cycle through the pool from every offset; non-trivial = tables with more than one field",
 		Assume: []string{"characters above U+FFFE are outside the configured range and not used", "the document has no trailing line ending"},
 		Spaces: func(tier string) []fw.Space {
